@@ -240,7 +240,7 @@ func (c *Ctx) paramNilSafe(fn *ssa.Function, idx int, depth int) bool {
 func (c *Ctx) nilGuarded(u ssa.Instruction, v ssa.Value) bool {
 	P := c.P
 	vd := P.Desc(v)
-	for _, l := range P.BlockGuards(u.Block()) {
+	for _, l := range P.Expand(P.BlockGuards(u.Block())) {
 		if nv := nilCheckedValue(l); nv != nil && !l.Pos && (nv == v || P.Desc(nv) == vd) {
 			return true
 		}
